@@ -10,6 +10,9 @@ VERIF = os.path.dirname(os.path.dirname(os.path.abspath(__file__)))
 PYTHON = os.environ.get("VERIF_PYTHON", "/venv/bin/python")
 WORLD_MAIN = os.path.join(VERIF, "sim", "world_main.py")
 REPO = os.environ.get("VERIF_REPO", "/repo")
+# evidence and replay files of a run against anything but /repo (sensitivity runs against a mutated
+# scratch copy) never land in /verif: the committed evidence always describes /repo itself
+OUT = VERIF if os.path.realpath(REPO) == "/repo" else (os.environ.get("VERIF_OUT") or os.path.join(os.path.dirname(os.path.realpath(REPO)), "verif-out"))
 
 
 class HarnessError(Exception):
@@ -86,7 +89,9 @@ def run_world(kind, spec, hash_seed, pycache, timeout=900, write_bytecode=False)
         else:
             events.append(rec)
     if end is None:
-        raise HarnessError("world died without end record rc=%s stderr=%s" % (p.returncode, p.stderr.decode("utf-8", "replace")[-2000:]))
+        last = events[-1] if events else {}
+        raise HarnessError("world died without end record rc=%s after %d events (last: i=%s op=%s pid=%s) stderr=%s" % (
+            p.returncode, len(events), last.get("i"), last.get("op"), last.get("pid"), p.stderr.decode("utf-8", "replace")[-2000:]))
     for rec in events:
         if "fatal" in rec:
             raise HarnessError("world fatal: %s" % rec["fatal"])
@@ -120,3 +125,13 @@ class PycCache:
 
     def close(self):
         shutil.rmtree(self.dir, ignore_errors=True)
+
+
+def repo_provenance():
+    """Which tree the worlds imported pyanalyze from (recorded in the evidence)."""
+    def git(*a):
+        try:
+            return subprocess.run(["git", "-C", REPO, *a], capture_output=True, text=True, timeout=60).stdout.strip()
+        except Exception:
+            return "?"
+    return {"path": os.path.realpath(REPO), "head": git("rev-parse", "HEAD"), "working_tree_changes": len([l for l in git("status", "--porcelain", "--untracked-files=no").splitlines() if l.strip()])}
